@@ -562,8 +562,8 @@ theorem parseValue_ok (v : Bytes) (h : fieldValueOk v = true) : parseValue v = s
   simp [parseValue, this]
 
 
-theorem crlfLines_line (l : Bytes) (hl : ∀ b ∈ l, b ≠ 13) (cur rest : Bytes) :
-    crlfLines cur (l ++ 13 :: 10 :: rest) = (cur.reverse ++ l) :: crlfLines [] rest := by
+theorem crlfLines_line (w : Bool) (l : Bytes) (hl : ∀ b ∈ l, b ≠ 13) (cur rest : Bytes) :
+    crlfLines w cur (l ++ 13 :: 10 :: rest) = (cur.reverse ++ l) :: crlfLines w [] rest := by
   induction l generalizing cur with
   | nil => simp [crlfLines]
   | cons x xs ih =>
@@ -603,26 +603,21 @@ theorem splitOn_none (w : Bytes) (hw : ∀ b ∈ w, b ≠ 13) (cur : Bytes) :
     rw [ih (fun b hb => hw b (by simp [hb]))]
     simp
 
-theorem stripSpace_plain (v : Bytes) (hv : ∀ b ∈ v, b ≠ 13) (hs : v.head? ≠ some 32) :
-    stripSpace v = v := by
-  simp only [stripSpace, splitOn_none v hv [], List.reverse_nil, List.nil_append, List.head?_cons]
+theorem stripSpace_plain (v : Bytes) (_hv : ∀ b ∈ v, b ≠ 13) (hs : v.head? ≠ some 32) :
+    stripSpace true v = v := by
+  simp only [stripSpace, if_true]
   match v, hs with
   | [], _ => rfl
   | b :: r, hs =>
     have : b ≠ 32 := by simpa using hs
     split
     · rename_i r' heq
-      simp only [Option.some.injEq, List.cons.injEq] at heq
+      simp only [List.cons.injEq] at heq
       exact absurd heq.1 this
     · rfl
 
-theorem stripSpace_space (v : Bytes) (hv : ∀ b ∈ v, b ≠ 13) : stripSpace (32 :: v) = v := by
-  have h32 : ∀ b ∈ (32 : UInt8) :: v, b ≠ 13 := by
-    intro b hb
-    rcases List.mem_cons.1 hb with rfl | hb
-    · decide
-    · exact hv b hb
-  simp only [stripSpace, splitOn_none _ h32 [], List.reverse_nil, List.nil_append, List.head?_cons]
+theorem stripSpace_space (v : Bytes) (_hv : ∀ b ∈ v, b ≠ 13) : stripSpace true (32 :: v) = v := by
+  simp [stripSpace]
 
 theorem parseLine_ok (sp : Bool) (p : Pair) (hk : lowerNameOk p.1 = true)
     (hv : plainValueOk p.2 = true) :
@@ -633,7 +628,7 @@ theorem parseLine_ok (sp : Bool) (p : Pair) (hk : lowerNameOk p.1 = true)
   have hline : p.1 ++ (if sp then [58, 32] else [58]) ++ p.2 =
       p.1 ++ 58 :: ((if sp then [32] else []) ++ p.2) := by
     cases sp <;> simp
-  have hstrip : stripSpace ((if sp then [32] else []) ++ p.2) = p.2 := by
+  have hstrip : stripSpace true ((if sp then [32] else []) ++ p.2) = p.2 := by
     cases sp
     · simpa using stripSpace_plain p.2 hcr hv.2
     · simpa using stripSpace_space p.2 hcr
@@ -642,7 +637,7 @@ theorem parseLine_ok (sp : Bool) (p : Pair) (hk : lowerNameOk p.1 = true)
 
 theorem block_lines (sp : Bool) (ps : List Pair)
     (h : ∀ p ∈ ps, lowerNameOk p.1 = true ∧ plainValueOk p.2 = true) :
-    crlfLines [] (trailersBlock sp ps) =
+    crlfLines true [] (trailersBlock sp ps) =
       ps.map (fun p => p.1 ++ (if sp then [58, 32] else [58]) ++ p.2) := by
   induction ps with
   | nil => simp [trailersBlock, crlfLines]
@@ -660,7 +655,7 @@ theorem block_lines (sp : Bool) (ps : List Pair)
     have e : trailersBlock sp (p :: ps) =
         (p.1 ++ (if sp then [58, 32] else [58]) ++ p.2) ++ 13 :: 10 :: trailersBlock sp ps := by
       simp [trailersBlock, lineOfSp, List.flatMap_cons]
-    rw [e, crlfLines_line _ hl, ih (fun q hq => h q (by simp [hq]))]
+    rw [e, crlfLines_line true _ hl, ih (fun q hq => h q (by simp [hq]))]
     simp
 
 theorem mapOpt_map {α β : Type} (f : α → Option β) (g : β → α) : ∀ (l : List β),
@@ -875,30 +870,30 @@ theorem findTrailers_nil : findTrailers true [] = .done 0 := rfl
 
 /-- all of `frames ++ trailers frame` is buffered: the frames go out (if any), the trailers
 are stored, nothing stays behind -/
-theorem afterPoll_whole (eof : Bool) (sp : Bool) (ps : List Pair)
-    (out : List Pair) (hdec : decodeTrailersFrame true (trailersFrame sp ps) = some (some out))
-    (hb : (trailersBlock sp ps).length < 4294967296)
+theorem afterPoll_whole (eof : Bool) (blk : Bytes)
+    (out : List Pair) (hdec : decodeTrailersFrame true (rawFrame 128 blk) = some (some out))
+    (hb : blk.length < 4294967296)
     (fs : List (Bool × Bytes)) (hfs : ∀ f ∈ fs, f.2.length < 4294967296) :
-    afterPoll eof { decoded := framesBytes fs ++ trailersFrame sp ps, trailers := none } =
+    afterPoll eof { decoded := framesBytes fs ++ rawFrame 128 blk, trailers := none } =
       if (framesBytes fs).length > 0
       then .emit (.data (framesBytes fs)) { decoded := [], trailers := some out }
       else .again { decoded := [], trailers := some out } := by
-  have hscan : findTrailers true (framesBytes fs ++ trailersFrame sp ps) =
+  have hscan : findTrailers true (framesBytes fs ++ rawFrame 128 blk) =
       .trailer (framesBytes fs).length :=
-    (scan_prefix _ hb fs hfs _ [] _ (Nat.le_refl _) (by simp [trailersFrame])).1 rfl
-  have hdrop : (framesBytes fs ++ trailersFrame sp ps).drop (framesBytes fs).length =
-      trailersFrame sp ps := List.drop_left' rfl
-  have htake : (framesBytes fs ++ trailersFrame sp ps).take (framesBytes fs).length =
+    (scan_prefix _ hb fs hfs _ [] _ (Nat.le_refl _) (by simp)).1 rfl
+  have hdrop : (framesBytes fs ++ rawFrame 128 blk).drop (framesBytes fs).length =
+      rawFrame 128 blk := List.drop_left' rfl
+  have htake : (framesBytes fs ++ rawFrame 128 blk).take (framesBytes fs).length =
       framesBytes fs := List.take_left' rfl
-  have hh : hdr5 (trailersFrame sp ps) =
-      some (128, (trailersBlock sp ps).length, trailersBlock sp ps) := by
-    have := hdr5_raw 128 (trailersBlock sp ps) [] hb
-    simpa [trailersFrame] using this
-  have hlenT : (trailersFrame sp ps).length = 5 + (trailersBlock sp ps).length := by
-    rw [trailersFrame, rawFrame_length]; omega
-  have htakeT : (trailersFrame sp ps).take (5 + (trailersBlock sp ps).length) = trailersFrame sp ps := by
+  have hh : hdr5 (rawFrame 128 blk) =
+      some (128, (blk).length, blk) := by
+    have := hdr5_raw 128 blk [] hb
+    simpa using this
+  have hlenT : (rawFrame 128 blk).length = 5 + (blk).length := by
+    rw [rawFrame_length]; omega
+  have htakeT : (rawFrame 128 blk).take (5 + (blk).length) = rawFrame 128 blk := by
     rw [← hlenT]; exact List.take_length
-  have hdropT : (trailersFrame sp ps).drop (5 + (trailersBlock sp ps).length) = [] := by
+  have hdropT : (rawFrame 128 blk).drop (5 + (blk).length) = [] := by
     rw [← hlenT]; exact List.drop_length
   simp only [afterPoll, hscan, onTrailer, hdrop, hh, htakeT, hdec,
     hdropT, htake, mergeOpt, mergeTrailers]
@@ -946,12 +941,12 @@ theorem run_after_trailers (ps : List Pair) : ∀ (chunks : List Bytes), chunks.
 /-- **Run invariant on a valid stream**: whatever part `D` of `frames ++ trailers frame` is
 buffered and however the rest is cut into chunks, the caller gets data frames carrying
 exactly the message frames, then the trailers, then the end. -/
-theorem run_valid (sp : Bool) (ps : List Pair)
-    (out : List Pair) (hdec : decodeTrailersFrame true (trailersFrame sp ps) = some (some out))
-    (hb : (trailersBlock sp ps).length < 4294967296) :
+theorem run_valid (blk : Bytes)
+    (out : List Pair) (hdec : decodeTrailersFrame true (rawFrame 128 blk) = some (some out))
+    (hb : (blk).length < 4294967296) :
     ∀ (chunks : List Bytes) (fs : List (Bool × Bytes)) (D : Bytes),
       (∀ f ∈ fs, f.2.length < 4294967296) →
-      D ++ chunks.flatten = framesBytes fs ++ trailersFrame sp ps →
+      D ++ chunks.flatten = framesBytes fs ++ rawFrame 128 blk →
       ∃ datas : List Bytes,
         run { decoded := D, trailers := none } (chunks.map BodyEv.data) =
           datas.map Out.data ++ [.trailers out, .eos] ∧
@@ -962,12 +957,12 @@ theorem run_valid (sp : Bool) (ps : List Pair)
     intro fs D hfs hD
     simp only [List.flatten_nil, List.append_nil] at hD
     subst hD
-    have hstep := afterPoll_whole true sp ps out hdec hb fs hfs
+    have hstep := afterPoll_whole true blk out hdec hb fs hfs
     have hfin : drain 2 { decoded := [], trailers := some out } = [.trailers out, .eos] := by
       simp only [drain, afterPoll, findTrailers_nil, if_true, onExhausted, Bool.not_true,
         Bool.false_eq_true, if_false, List.isEmpty_nil]
-    obtain ⟨k, hk⟩ : ∃ k, (framesBytes fs ++ trailersFrame sp ps).length + 3 = (k + 2) + 1 :=
-      ⟨(framesBytes fs ++ trailersFrame sp ps).length, by omega⟩
+    obtain ⟨k, hk⟩ : ∃ k, (framesBytes fs ++ rawFrame 128 blk).length + 3 = (k + 2) + 1 :=
+      ⟨(framesBytes fs ++ rawFrame 128 blk).length, by omega⟩
     simp only [List.map_nil, run, hk]
     rw [drain, hstep]
     have hfin' : ∀ k, drain (k + 2) { decoded := [], trailers := some out } = [.trailers out, .eos] := by
@@ -986,15 +981,15 @@ theorem run_valid (sp : Bool) (ps : List Pair)
   | cons c cs ih =>
     intro fs D hfs hD
     simp only [List.flatten_cons] at hD
-    have hD1 : (D ++ c) ++ cs.flatten = framesBytes fs ++ trailersFrame sp ps := by
+    have hD1 : (D ++ c) ++ cs.flatten = framesBytes fs ++ rawFrame 128 blk := by
       rw [List.append_assoc]; exact hD
     simp only [List.map_cons, run]
     obtain ⟨hA, hB⟩ := scan_prefix _ hb fs hfs (D ++ c) cs.flatten ((D ++ c).length + 1)
-      (Nat.le_refl _) (by simpa [trailersFrame] using hD1)
+      (Nat.le_refl _) hD1
     by_cases hX : cs.flatten = []
     · -- everything has arrived
-      have hDc : D ++ c = framesBytes fs ++ trailersFrame sp ps := by simpa [hX] using hD1
-      rw [hDc, afterPoll_whole false sp ps out hdec hb fs hfs]
+      have hDc : D ++ c = framesBytes fs ++ rawFrame 128 blk := by simpa [hX] using hD1
+      rw [hDc, afterPoll_whole false blk out hdec hb fs hfs]
       by_cases hl : (framesBytes fs).length > 0
       · simp only [hl, if_true, run_after_trailers out cs hX]
         exact ⟨[framesBytes fs], by simp, by simp⟩
@@ -1017,7 +1012,7 @@ theorem run_valid (sp : Bool) (ps : List Pair)
             rw [e2]; exact List.take_left' rfl
           have hdrop : (D ++ c).drop (framesBytes fs1).length = P := by
             rw [e2]; exact List.drop_left' rfl
-          have hP : P ++ cs.flatten = framesBytes fs2 ++ trailersFrame sp ps := by
+          have hP : P ++ cs.flatten = framesBytes fs2 ++ rawFrame 128 blk := by
             have := hD1
             rw [e2, e1, framesBytes_append, List.append_assoc, List.append_assoc] at this
             exact List.append_cancel_left this
@@ -1026,6 +1021,80 @@ theorem run_valid (sp : Bool) (ps : List Pair)
           obtain ⟨datas, hr, hf⟩ := ih fs2 P hfs2 hP
           rw [htake, hdrop, hr]
           exact ⟨framesBytes fs1 :: datas, by simp, by simp [hf, e1, framesBytes_append]⟩
+
+/-- all of `frames ++ trailers frame` is buffered and the trailers block does not decode: the
+error is returned (the frames in front are not handed out) -/
+theorem afterPoll_whole_bad (eof : Bool) (blk : Bytes)
+    (hdec : decodeTrailersFrame true (rawFrame 128 blk) = none)
+    (hb : blk.length < 4294967296)
+    (fs : List (Bool × Bytes)) (hfs : ∀ f ∈ fs, f.2.length < 4294967296) :
+    afterPoll eof { decoded := framesBytes fs ++ rawFrame 128 blk, trailers := none } =
+      .stop [.err] := by
+  have hscan : findTrailers true (framesBytes fs ++ rawFrame 128 blk) =
+      .trailer (framesBytes fs).length :=
+    (scan_prefix _ hb fs hfs _ [] _ (Nat.le_refl _) (by simp)).1 rfl
+  have hdrop : (framesBytes fs ++ rawFrame 128 blk).drop (framesBytes fs).length =
+      rawFrame 128 blk := List.drop_left' rfl
+  have hh : hdr5 (rawFrame 128 blk) = some (128, blk.length, blk) := by
+    have := hdr5_raw 128 blk [] hb
+    simpa using this
+  have hlenT : (rawFrame 128 blk).length = 5 + blk.length := by
+    rw [rawFrame_length]; omega
+  have htakeT : (rawFrame 128 blk).take (5 + blk.length) = rawFrame 128 blk := by
+    rw [← hlenT]; exact List.take_length
+  simp only [afterPoll, hscan, onTrailer, hdrop, hh, htakeT, hdec]
+
+/-- **A trailers block that does not decode ends the stream in an error**, whatever part of
+`frames ++ trailers frame` is buffered and however the rest is chunked. -/
+theorem run_bad_block (blk : Bytes)
+    (hdec : decodeTrailersFrame true (rawFrame 128 blk) = none)
+    (hb : blk.length < 4294967296) :
+    ∀ (chunks : List Bytes) (fs : List (Bool × Bytes)) (D : Bytes),
+      (∀ f ∈ fs, f.2.length < 4294967296) →
+      D ++ chunks.flatten = framesBytes fs ++ rawFrame 128 blk →
+      (run { decoded := D, trailers := none } (chunks.map BodyEv.data)).getLast? = some .err := by
+  intro chunks
+  induction chunks with
+  | nil =>
+    intro fs D hfs hD
+    simp only [List.flatten_nil, List.append_nil] at hD
+    subst hD
+    obtain ⟨k, hk⟩ : ∃ k, (framesBytes fs ++ rawFrame 128 blk).length + 3 = k + 1 :=
+      ⟨(framesBytes fs ++ rawFrame 128 blk).length + 2, by omega⟩
+    simp only [List.map_nil, run, hk]
+    rw [drain, afterPoll_whole_bad true blk hdec hb fs hfs]
+    rfl
+  | cons c cs ih =>
+    intro fs D hfs hD
+    simp only [List.flatten_cons] at hD
+    have hD1 : (D ++ c) ++ cs.flatten = framesBytes fs ++ rawFrame 128 blk := by
+      rw [List.append_assoc]; exact hD
+    simp only [List.map_cons, run]
+    obtain ⟨hA, hB⟩ := scan_prefix _ hb fs hfs (D ++ c) cs.flatten ((D ++ c).length + 1)
+      (Nat.le_refl _) hD1
+    by_cases hX : cs.flatten = []
+    · have hDc : D ++ c = framesBytes fs ++ rawFrame 128 blk := by simpa [hX] using hD1
+      rw [hDc, afterPoll_whole_bad false blk hdec hb fs hfs]
+      rfl
+    · rcases hB hX with hinc | ⟨fs1, fs2, P, e1, e2, e3⟩
+      · rw [afterPoll_incomplete (st := { decoded := D ++ c, trailers := none }) hinc]
+        simp only [Bool.false_eq_true, if_false]
+        exact ih fs (D ++ c) hfs hD1
+      · rw [afterPoll_done (st := { decoded := D ++ c, trailers := none }) e3]
+        by_cases hl : (framesBytes fs1).length = 0
+        · simp only [hl, if_true, onExhausted, Bool.not_false]
+          exact ih fs (D ++ c) hfs hD1
+        · simp only [hl, if_false]
+          have hdrop : (D ++ c).drop (framesBytes fs1).length = P := by
+            rw [e2]; exact List.drop_left' rfl
+          have hP : P ++ cs.flatten = framesBytes fs2 ++ rawFrame 128 blk := by
+            have := hD1
+            rw [e2, e1, framesBytes_append, List.append_assoc, List.append_assoc] at this
+            exact List.append_cancel_left this
+          have hfs2 : ∀ f ∈ fs2, f.2.length < 4294967296 :=
+            fun f hf => hfs f (by rw [e1]; exact List.mem_append_right _ hf)
+          rw [hdrop, getLast_cons_ne_nil _ _ (run_ne_nil _ _)]
+          exact ih fs2 P hfs2 hP
 
 /-! ### `frameStructure` decides `WellFramed` -/
 
@@ -1432,7 +1501,7 @@ theorem parseLine_any (sp : Bool) (p : Pair) (hk : anyCaseNameOk p.1 = true)
   have hline : p.1 ++ (if sp then [58, 32] else [58]) ++ p.2 =
       p.1 ++ 58 :: ((if sp then [32] else []) ++ p.2) := by
     cases sp <;> simp
-  have hstrip : stripSpace ((if sp then [32] else []) ++ p.2) = p.2 := by
+  have hstrip : stripSpace true ((if sp then [32] else []) ++ p.2) = p.2 := by
     cases sp
     · simpa using stripSpace_plain p.2 hcr hv.2
     · simpa using stripSpace_space p.2 hcr
@@ -1442,7 +1511,7 @@ theorem parseLine_any (sp : Bool) (p : Pair) (hk : anyCaseNameOk p.1 = true)
 open Spec.GrpcWeb (anyCaseNameOk lowerName) in
 theorem block_lines_any (sp : Bool) (ps : List Pair)
     (h : ∀ p ∈ ps, anyCaseNameOk p.1 = true ∧ plainValueOk p.2 = true) :
-    crlfLines [] (trailersBlock sp ps) =
+    crlfLines true [] (trailersBlock sp ps) =
       ps.map (fun p => p.1 ++ (if sp then [58, 32] else [58]) ++ p.2) := by
   induction ps with
   | nil => simp [trailersBlock, crlfLines]
@@ -1460,7 +1529,7 @@ theorem block_lines_any (sp : Bool) (ps : List Pair)
     have e : trailersBlock sp (p :: ps) =
         (p.1 ++ (if sp then [58, 32] else [58]) ++ p.2) ++ 13 :: 10 :: trailersBlock sp ps := by
       simp [trailersBlock, lineOfSp, List.flatMap_cons]
-    rw [e, crlfLines_line _ hl, ih (fun q hq => h q (by simp [hq]))]
+    rw [e, crlfLines_line true _ hl, ih (fun q hq => h q (by simp [hq]))]
     simp
 
 theorem mapOpt_map_fun {α β γ : Type} (f : α → Option γ) (g : β → α) (k : β → γ) :
